@@ -45,7 +45,10 @@ func (c16) Assumptions() []string {
 var c16States = []string{"empty", "first-policy", "established", "staging-ahead", "policy-ahead", "diverged", "attestations"}
 var c16Ops = []string{"push", "annotate", "propagation", "stage", "apply", "approve", "reconcileStaging", "autoskip", "approveAgain"}
 
-func (c16) Generate(r *core.Rand, tier string, idx uint64) *core.Case {
+func (d c16) Generate(r *core.Rand, tier string, idx uint64) *core.Case {
+	if c16IsGitCase(idx) {
+		return d.generateGit(r, tier, idx)
+	}
 	c := &core.Case{Property: "C16", Engine: "simstore", Config: map[string]int{}, Flags: map[string]bool{}}
 	state := r.Intn(len(c16States))
 	op := r.Intn(len(c16Ops))
@@ -240,6 +243,9 @@ func verdicts(st *simstore.Store, refs []string) map[string]string {
 }
 
 func (d c16) Execute(c *core.Case) *core.Result {
+	if c.Engine == "git" {
+		return d.executeGit(c)
+	}
 	res := &core.Result{}
 	target := c.Config["target"]
 	var top *world.Op
